@@ -17,11 +17,13 @@ Quick: all dialer hook lists (<= 2 hooks, 4 patterns each) x all acceptor hook l
 with an additional protocol) x all dialer hook lists; hooks behind a filter retry / reject.  Thorough: full product
 model-checked, seeded sample run e2e.
 
-Mutation self-tests (recorded 2026-09-22, diffs under /var/tmp applied to /repo and undone):
- * conn_from_noq_conn ignores the after_handshake outcome (/var/tmp/c42-mut-after.diff) -> VIOLATION
-   clause=connect_result (Ok where a hook rejected);
- * EndpointHooksList::before_connect keeps going after a Reject and returns the last outcome
-   (/var/tmp/c42-mut-before.diff) -> VIOLATION clause=before_connect_calls.
+Mutation self-tests (2026-09-22), run in the private mirror described in checks/c40.py:
+ * /var/tmp/c42-mut-before.diff — EndpointHooksList::before_connect keeps calling hooks after a Reject and returns the
+   last outcome -> VIOLATION clause=before_connect_calls (observed [[1,p],[2,p]] where the specification stops at 1);
+ * /var/tmp/c42-mut-after.diff — conn_from_noq_conn ignores the after_handshake outcome
+   -> VIOLATION clause=connect_result (Ok where the dialer hook rejected) and clause=protocol_accept_invoked (the
+   accepting side ran the protocol although its hook rejected);
+ * undone -> exit 0, no finding.
 """
 import json
 
